@@ -239,6 +239,9 @@ pub struct Knobs {
     pub parallelism: u8,
     pub monitors: bool,
     pub max_steps: u32,
+    /// enumerated freeze: (task, after own decisions, duration in decisions)
+    #[serde(default)]
+    pub freeze: Option<(u8, u32, u32)>,
 }
 
 impl Default for Knobs {
@@ -254,6 +257,7 @@ impl Default for Knobs {
             parallelism: 4,
             monitors: true,
             max_steps: 400_000,
+            freeze: None,
         }
     }
 }
@@ -280,6 +284,7 @@ impl Knobs {
             max_steps: self.max_steps as u64,
             est_len,
             monitors: self.monitors,
+            freeze: self.freeze.map(|(t, a, d)| (t as usize, a as u64, d as u64)),
         }
     }
 }
